@@ -70,7 +70,8 @@ Theorem C02_items_come_from_attempts : forall order ptr mods st0 st,
       ext R0 R0 (st_reg st_mid) /\ attempt st_mid p gd = (st_mid', Ok r) /\
       ext R0 (st_reg st_mid) (st_reg st_mid') /\ ext R0 (st_reg st_mid') (st_reg st) /\
       ext R0 (st_reg (set_resolved st_mid' p r)) (st_reg st) /\
-      exists itm, reg_get (st_reg st_mid) p = Some itm /\ it_state itm = Unresolved gd /\ it_path itm = p.
+      (exists itm, reg_get (st_reg st_mid) p = Some itm /\ it_state itm = Unresolved gd /\ it_path itm = p) /\
+      mods_rel (st_modules st_mid) (st_modules st0).
 Proof. exact pyxis_resolve_items. Qed.
 Print Assumptions C02_items_come_from_attempts.
 
